@@ -1,5 +1,7 @@
 import RxProofs.Lemmas.TimedRate
 import RxProofs.Lemmas.TimedMap
+import RxProofs.Lemmas.TimedSim
+import RxProofs.Lemmas.TimedSimSample
 /-!
 # C16 — rate-limiting operators follow their timing rules
 
@@ -89,5 +91,48 @@ example : twmRun (fun _ _ => none)
     [(210, MEv.src (.next "a")), (215, .src (.next "b")), (220, .inner 0 .next), (225, .inner 1 .completed),
      (230, .src (.next "c")), (231, .src .completed)]
     = [(225, .next "b"), (231, .next "c"), (231, .completed)] := by decide
+
+/-! ## The bridge: the scheduler's `(due, seq)` rule is derived, not assumed
+
+`simStart` / `sampSim` (`RxModel/TimedSim.lean`) run a queue of scheduled items ordered by (due time, insertion order):
+the hot source's messages are scheduled first, the operator's actions are scheduled by its handlers when they run, and
+the handlers are the same functions as in the two-stream runs.  The theorems below say that this simulation produces
+exactly the two-stream run, for every timeline with non-decreasing times. -/
+
+/-- **debounce_sim_bridge.**  Subscribed at clock `sub`, hot source. -/
+theorem debounce_sim_bridge {α} (d sub lo : Nat) (msgs : TL α) (h : Mono lo msgs) (hs : sub ≤ lo) :
+    simStart (debOp d) (fun _ => []) sub none {} msgs = debRun d {} msgs := by
+  rw [simStart_eq_twoStream]
+  exact deb_twoStream_eq_run d _ msgs {} sub lo h hs (by intro due cur hc; cases hc)
+
+/-- **throttle_first_sim_bridge** (no timer: the handler reads the clock of the item being run). -/
+theorem throttle_first_sim_bridge {α} (w sub lo : Nat) (msgs : TL α) (h : Mono lo msgs) (hs : sub ≤ lo) :
+    simStart (tfOp w) (fun _ => []) sub none none msgs = tfRun w none msgs := by
+  rw [simStart_eq_twoStream]
+  exact tf_twoStream_eq_run w _ msgs none sub lo h hs
+
+/-- **sample_tie_rule_derived.**  The source's messages and the sampler's events are two blocks of pre-scheduled items.
+If the source's block was scheduled first (hot source created before the sampler, or both cold: the source is
+subscribed first) the queue is their stable merge with the source winning ties and the run is `sampRun false`; if the
+sampler's block was scheduled first (cold source — scheduled at subscription — against a hot sampler) the sampler wins
+ties and the run is `sampRun true`.  This is the rule found by the correspondence, now a theorem about the queue. -/
+theorem sample_tie_rule_derived {α} (lo : Nat) (msgs : TL α) (ticks : List (Nat × SampEv)) (h : Mono lo msgs)
+    (ht : SortedT (sampTickItems (α := α) ticks)) :
+    sampSim (mergeStable (sampSrcItems msgs ++ sampTickItems ticks)) true {} = sampRun false {} msgs ticks
+    ∧ sampSim (mergeStable (sampTickItems ticks ++ sampSrcItems msgs)) true {} = sampRun true {} msgs ticks := by
+  have hsrc := sortedT_srcItems h
+  constructor
+  · rw [mergeStable_append _ _ hsrc ht]
+    have := sampSim_eq_run false ticks msgs ({} : SampSt α)
+    simpa [sampQueue] using this
+  · rw [mergeStable_append _ _ ht hsrc]
+    have := sampSim_eq_run true ticks msgs ({} : SampSt α)
+    simpa [sampQueue] using this
+
+/-- a tie at 220: source first when it was scheduled first, sampler first otherwise -/
+example : sampSim (mergeStable (sampSrcItems [(220, Notif.next 1)] ++ sampTickItems [(220, .tick), (240, .tick)])) true {}
+      = [(220, .next 1)]
+    ∧ sampSim (mergeStable (sampTickItems [(220, .tick), (240, .tick)] ++ sampSrcItems [(220, Notif.next 1)])) true {}
+      = [(240, .next 1)] := by decide
 
 end C16
